@@ -12,6 +12,13 @@ import (
 	"github.com/goatcms/goatcore/varutil/goaterr"
 )
 
+// viewKey identifies a cached view. The layout and the view name are kept apart:
+// a joined string would be the same for ("a:b", "c") and ("a", "b:c").
+type viewKey struct {
+	layoutName string
+	viewName   string
+}
+
 // Provider provide templates api
 type Provider struct {
 	fs           filesystem.Filespace
@@ -24,7 +31,7 @@ type Provider struct {
 	layoutMutex  sync.RWMutex
 	layouts      map[string]*template.Template
 	viewMutex    sync.RWMutex
-	views        map[string]*template.Template
+	views        map[viewKey]*template.Template
 	funcs        template.FuncMap
 	isCached     bool
 }
@@ -38,7 +45,7 @@ func NewProvider(fs filesystem.Filespace, helpersPath, layoutPath, viewPath, ext
 		viewPath:    viewPath,
 		extension:   extension,
 		layouts:     map[string]*template.Template{},
-		views:       map[string]*template.Template{},
+		views:       map[viewKey]*template.Template{},
 		funcs:       funcs,
 		isCached:    isCached,
 	}
@@ -134,7 +141,7 @@ func (provider *Provider) layout(name string) (layoutTemplate *template.Template
 func (provider *Provider) View(layoutName, viewName string) (tmpl *template.Template, err error) {
 	var (
 		ok  bool
-		key string
+		key viewKey
 	)
 	if layoutName == "" {
 		layoutName = goathtml.DefaultLayout
@@ -142,7 +149,7 @@ func (provider *Provider) View(layoutName, viewName string) (tmpl *template.Temp
 	if viewName == "" {
 		return nil, goaterr.Errorf("goathtml.Provider: A view name is required")
 	}
-	key = layoutName + ":" + viewName
+	key = viewKey{layoutName: layoutName, viewName: viewName}
 	// check with the read lock only (preformence feature)
 	provider.viewMutex.RLock()
 	tmpl, ok = provider.views[key]
@@ -153,7 +160,7 @@ func (provider *Provider) View(layoutName, viewName string) (tmpl *template.Temp
 	return provider.view(layoutName, viewName, key)
 }
 
-func (provider *Provider) view(layoutName, viewName, key string) (viewTemplate *template.Template, err error) {
+func (provider *Provider) view(layoutName, viewName string, key viewKey) (viewTemplate *template.Template, err error) {
 	var (
 		ok             bool
 		layoutTemplate *template.Template
